@@ -209,6 +209,16 @@ SPECS += [
          props=["C03"], **SCHED_COMMON),
 ]
 
+SPECS += [
+    # ---- sdk/input.py : Input.pull_data, static inputs fetch once (C20) -------------------------------------------
+    dict(lean="Input_pull_data", path="sdk/input.py", qual="Input.pull_data", group="Static",
+         fields={"is_static": "Bool", "_cached_data": "Opt[Val]"}, params={"time": "Int"}, ignore_params=["target"],
+         extra_params={"src_data": "Val"}, ret="Val",
+         consts={"self._source.get_data(time, target or self)": ("src_data", "Val")},
+         calls={"self._convert_and_check": "id"}, locals={"data": "Val"},
+         assume_false=["time is not None and (not isinstance(time, datetime))"], props=["C20"]),
+]
+
 
 def by_group():
     g = {}
